@@ -21,4 +21,22 @@ CHECKS = {
                      "gRPC/protobuf marshalling below the FixedBytes32 value is trusted"],
         trusted_base=["model of big.Int.Bytes/FillBytes/SetBytes as base-256 digit lists (Model/Bytes.lean)"],
     ),
+    "C18": dict(
+        modules=["AggkitModel.Properties.C18"],
+        scenarios=[dict(name="epoch")],
+        generated=[],
+        leanchecker=True,
+        level_text="Proved in Lean 4 for every configuration (S, N, P) and every strictly increasing block sequence at or after S, of any length and with "
+                   "arbitrary gaps: C18_exact (the notifier's counter-based run equals the set-based specification 'announce an epoch at its first block at/after "
+                   "the threshold, never again'), C18_exactly_once (no epoch twice; every notification is at a qualifying block with that block's epoch; every "
+                   "qualifying block's epoch is announced), C18_increasing (announced epochs strictly increase). The exact integer threshold test of the model is "
+                   "tied to the Go float64 code by driving the real EpochNotifierPerBlock goroutine (fake block notifier, recording subscriber) and the Lean model on the same sequences: "
+                   "exhaustively for small N/S and all subsets of a window, randomly for N up to 2^44.",
+        level_note="Trusted: Lean kernel; equivalence of the float64 threshold comparison with the exact rational one (argued for N < 2^45, sampled by the correspondence run, not proved); "
+                   "uint64 wrap-around near 2^64 is outside the model; goroutine/channel plumbing of startInternal is exercised, not modelled.",
+        rule="all subsets of a 7..10 block window from S (S itself included) x N<=4..8 x S<=2 x P grid, plus seeded random sequences with jumps to just around thresholds; "
+             "distinct = distinct (S,N,P,sequence); non-trivial = at least one block delivered; separate malformed stream (repeated / decreasing / below-start blocks, invalid configs)",
+        assumptions=["float64 threshold comparison agrees with the exact integer test for N < 2^45 (sampled)", "block numbers + N < 2^64"],
+        trusted_base=["exact-arithmetic twin of the float64 threshold test (Model/Epoch.lean reached)"],
+    ),
 }
